@@ -51,6 +51,8 @@ type icase struct {
 	// algorithm identifier (draft-13 §10, Table 18) and application context
 	algID uint32
 	ctx   []byte
+	// number of range-checked elements (0 if not chunked)
+	checked int
 }
 
 func bi(v uint64) *big.Int { return new(big.Int).SetUint64(v) }
@@ -126,7 +128,9 @@ func build(f func() (inst, error)) (I inst, be *buildErr) {
 
 func newCountCase(shares uint8, ctx []byte) (*icase, *buildErr) {
 	I, be := build(func() (inst, error) {
-		c, err := count.New(shares, ctx)
+		cc := append([]byte{}, ctx...)
+		c, err := count.New(shares, cc)
+		scribble(cc) // the constructor must not keep the caller's context slice
 		if err != nil {
 			return nil, err
 		}
@@ -154,7 +158,9 @@ func newCountCase(shares uint8, ctx []byte) (*icase, *buildErr) {
 
 func newSumCase(shares uint8, max uint64, ctx []byte) (*icase, *buildErr) {
 	I, be := build(func() (inst, error) {
-		s, err := sum.New(shares, max, ctx)
+		cc := append([]byte{}, ctx...)
+		s, err := sum.New(shares, max, cc)
+		scribble(cc) // the constructor must not keep the caller's context slice
 		if err != nil {
 			return nil, err
 		}
@@ -236,7 +242,9 @@ func newSumCase(shares uint8, max uint64, ctx []byte) (*icase, *buildErr) {
 
 func newSumVecCase(shares uint8, length, nbits, chunk uint, ctx []byte) (*icase, *buildErr) {
 	I, be := build(func() (inst, error) {
-		s, err := sumvec.New(shares, length, nbits, chunk, ctx)
+		cc := append([]byte{}, ctx...)
+		s, err := sumvec.New(shares, length, nbits, chunk, cc)
+		scribble(cc) // the constructor must not keep the caller's context slice
 		if err != nil {
 			return nil, err
 		}
@@ -249,12 +257,26 @@ func newSumVecCase(shares uint8, length, nbits, chunk uint, ctx []byte) (*icase,
 	if nbits < 64 {
 		maxv = uint64(1)<<nbits - 1
 	}
-	c := &icase{I: I, algID: 3, ctx: ctx, name: "sumvec", desc: fmt.Sprintf("sumvec(shares=%d,len=%d,bits=%d,chunk=%d)", shares, length, nbits, chunk), shares: int(shares), chunk: int(chunk)}
+	c := &icase{I: I, algID: 3, ctx: ctx, name: "sumvec", desc: fmt.Sprintf("sumvec(shares=%d,len=%d,bits=%d,chunk=%d)", shares, length, nbits, chunk), shares: int(shares), chunk: int(chunk), checked: int(length * nbits)}
+	hot := -1 // one position per batch that collects maximal entries (drives its sum across 2^64 for wide entries)
 	c.genMeas = func(t *rapid.T, label string) (any, bool) {
 		v := make([]uint64, length)
-		k := pick(t, 5, label+".k")
+		if hot < 0 {
+			hot = pick(t, int(length), "hotpos")
+		}
+		k := pick(t, 7, label+".k")
 		ext := false
 		switch k {
+		case 5, 6:
+			v[hot] = maxv
+			if k == 6 {
+				for i := range v {
+					if i != hot {
+						v[i] = rapid.Uint64Range(0, maxv>>4).Draw(t, label+".small")
+					}
+				}
+			}
+			ext = true
 		case 0:
 			ext = true
 		case 1:
@@ -322,7 +344,9 @@ func newSumVecCase(shares uint8, length, nbits, chunk uint, ctx []byte) (*icase,
 
 func newHistogramCase(shares uint8, length, chunk uint, ctx []byte) (*icase, *buildErr) {
 	I, be := build(func() (inst, error) {
-		h, err := histogram.New(shares, length, chunk, ctx)
+		cc := append([]byte{}, ctx...)
+		h, err := histogram.New(shares, length, chunk, cc)
+		scribble(cc) // the constructor must not keep the caller's context slice
 		if err != nil {
 			return nil, err
 		}
@@ -331,7 +355,7 @@ func newHistogramCase(shares uint8, length, chunk uint, ctx []byte) (*icase, *bu
 	if be != nil {
 		return nil, be
 	}
-	c := &icase{I: I, algID: 4, ctx: ctx, name: "histogram", desc: fmt.Sprintf("histogram(shares=%d,len=%d,chunk=%d)", shares, length, chunk), shares: int(shares), chunk: int(chunk)}
+	c := &icase{I: I, algID: 4, ctx: ctx, name: "histogram", desc: fmt.Sprintf("histogram(shares=%d,len=%d,chunk=%d)", shares, length, chunk), shares: int(shares), chunk: int(chunk), checked: int(length)}
 	c.genMeas = func(t *rapid.T, label string) (any, bool) {
 		switch pick(t, 4, label+".k") {
 		case 0:
@@ -403,7 +427,9 @@ func newHistogramCase(shares uint8, length, chunk uint, ctx []byte) (*icase, *bu
 
 func newMhcvCase(shares uint8, length, maxW, chunk uint, ctx []byte) (*icase, *buildErr) {
 	I, be := build(func() (inst, error) {
-		m, err := mhcv.New(shares, length, maxW, chunk, ctx)
+		cc := append([]byte{}, ctx...)
+		m, err := mhcv.New(shares, length, maxW, chunk, cc)
+		scribble(cc) // the constructor must not keep the caller's context slice
 		if err != nil {
 			return nil, err
 		}
@@ -414,7 +440,7 @@ func newMhcvCase(shares uint8, length, maxW, chunk uint, ctx []byte) (*icase, *b
 	}
 	nb := bits.Len64(uint64(maxW))
 	offset := (uint64(1) << uint(nb)) - 1 - uint64(maxW)
-	c := &icase{I: I, algID: 5, ctx: ctx, name: "mhcv", desc: fmt.Sprintf("mhcv(shares=%d,len=%d,maxw=%d,chunk=%d)", shares, length, maxW, chunk), shares: int(shares), chunk: int(chunk)}
+	c := &icase{I: I, algID: 5, ctx: ctx, name: "mhcv", desc: fmt.Sprintf("mhcv(shares=%d,len=%d,maxw=%d,chunk=%d)", shares, length, maxW, chunk), shares: int(shares), chunk: int(chunk), checked: int(length) + nb}
 	withWeight := func(t *rapid.T, w int, label string) []bool {
 		v := make([]bool, length)
 		perm := rapid.Permutation(seq(int(length))).Draw(t, label+".perm")
